@@ -1185,3 +1185,14 @@ def _m92():
         recipe = listify(recipe) + [Silent([ 'touch', qvar('@') ])]""", """        buildfile.rule(target=targets, deps=[primary], phony=phony)
         recipe = listify(recipe) + [Silent([ 'touch', qvar('@') ])]
         phony = None""")
+
+
+@mutant('install_paths_in_mapping_order')
+def _m93():
+    # install._add_install_paths iterates the environment's mapping instead of the InstallRoot enum
+    from bfg9000.builtins import install as bi
+    _patch_source(bi, '_add_install_paths', """    for i in path.InstallRoot:
+        buildfile.variable(buildfile.path_vars[i], env.install_dirs[i],
+                           buildfile.Section.path)""", """    for i, _d in env.install_dirs.items():
+        buildfile.variable(buildfile.path_vars[i], _d,
+                           buildfile.Section.path)""")
